@@ -320,6 +320,9 @@ type LongLived struct {
 	// Recreate: a new engine is built over the same state and cache objects for every request (in-memory resume with
 	// WithState/WithMemory: the session lives in the client's objects, engines come and go)
 	Recreate bool
+	// RecreateWhen, if set, decides per request number (1-based) whether a new engine takes over (engines that serve
+	// a few requests each)
+	RecreateWhen func(n int) bool
 	// FailFirstFlush, if set and true for the request number (1-based), makes the client's writer fail once: Flush is
 	// called with a writer that refuses, and then again with a working one (a connection hiccup and a retry)
 	FailFirstFlush func(n int) bool
@@ -356,7 +359,7 @@ func (d *LongLived) Request(input []byte) *Obs {
 	d.Res.Take()
 	d.nreq++
 	pv, stack := vk.Guard(func() {
-		if d.Recreate && d.nreq > 1 {
+		if d.nreq > 1 && (d.Recreate || d.RecreateWhen != nil && d.RecreateWhen(d.nreq)) {
 			d.En.Finish(ctx)
 			d.build()
 		}
